@@ -39,7 +39,7 @@ def generate(gen, tier):
         c = substitute_leaves(gen, relabel_leaves(gen, base), 0.3, 2) if rng.random() < 0.5 else None
         sa, sb = [A('structure'), cfg, a], [A('structure'), cfg, b]
         lines = [op('spec', [A('bcast'), sa, sb]), op('spec', [A('bcast'), sb, sa]),
-                 op('paths', [A('bcast'), sa, sb])]
+                 op('paths', [A('bcast'), sa, sb]), op('is_enc', [A('bcast'), sa, sb])]
         cases.append({'lines': lines, 'o': {'cfg': render(cfg), 'a': render(a), 'b': render(b),
                                             'c': render(c) if c is not None else None, 'class': cls}})
     return cases
